@@ -41,7 +41,47 @@ def run(req):
     return dict(status='passed', failures=[], checked=w.checked)
 
 
+def sample(pid, tier, seed, n, only=None):
+    """differential concretisation: run every symbolic-engine case of the property n times on random concrete inputs
+    against the real library; returns a list of result dicts"""
+    import random
+    import re
+    warnings.filterwarnings('ignore')
+    from .run import load_harness
+    from .world import ConcreteWorld, HarnessReject
+    mod = load_harness(pid)
+    out = []
+    for case in mod.cases(tier, seed):
+        if case.engine != 'symnp' or (only and not re.search(only, case.name)):
+            continue
+        k = getattr(case, 'concrete_samples', n)
+        for i in range(min(n, k) if k is not None else n):
+            rng = random.Random('%s/%s/%d/%d' % (pid, case.name, seed, i))
+            w = ConcreteWorld({}, case.params, rng=rng)
+            rec = dict(case=case.name, i=i)
+            try:
+                case.fn(w)
+                rec['status'] = 'failed' if w.failures else 'passed'
+                rec['failures'] = [dict(label=f.label, detail=f.detail) for f in w.failures][:5]
+            except HarnessReject as e:
+                rec['status'] = 'rejected'
+            except Exception as e:
+                rec['status'] = 'failed'
+                rec['failures'] = [dict(label='no-exception', detail='%s: %s' % (type(e).__name__, e),
+                                        tb=traceback.format_exc(limit=6))]
+            rec['checked'] = len(w.checked)
+            if rec['status'] == 'failed':
+                rec['values'] = {k_: repr(v) for k_, v in w.drawn.items()}
+            out.append(rec)
+    return out
+
+
 def main():
+    if len(sys.argv) >= 2 and sys.argv[1] == '--sample':
+        pid, tier, seed, n = sys.argv[2], sys.argv[3], int(sys.argv[4]), int(sys.argv[5])
+        res = sample(pid, tier, seed, n, sys.argv[6] if len(sys.argv) > 6 else None)
+        print('SAMPLE-RESULT ' + json.dumps(res))
+        return 0
     if len(sys.argv) >= 3 and sys.argv[1] == '--json':
         req = json.loads(sys.argv[2])
     else:
